@@ -33,6 +33,9 @@ type C07Cfg struct {
 	// Upstream: everything leaves through an upstream proxy that speaks TLS itself ("https") or not ("http"): tunnelled
 	// CONNECTs and the transport's own CONNECTs for intercepted requests go through it; origins are verified as before.
 	Upstream string `json:"upstream,omitempty"`
+	// AutoCA: no CA files are configured: the proxy generates its signing CA at start and publishes it; clients trust
+	// that certificate for as long as the proxy runs
+	AutoCA bool `json:"auto_ca,omitempty"`
 }
 
 type C07Conn struct {
@@ -106,6 +109,9 @@ func genC07(t *rapid.T) C07Case {
 	}
 	if c.Cfg.Short {
 		c.Cfg.LongTTL = rapid.Bool().Draw(t, "longttl")
+		c.Cfg.AutoCA = rapid.Bool().Draw(t, "autocashort")
+	} else {
+		c.Cfg.AutoCA = rapid.IntRange(0, 7).Draw(t, "autoca") == 0
 	}
 	c.Rounds = 1
 	if rapid.IntRange(0, 3).Draw(t, "rounds") == 0 || c.Cfg.Short {
@@ -199,7 +205,7 @@ func (e *c07Env) proxy(cfg C07Cfg) (*ProxyInst, error) {
 			mc.CacheTTL = time.Hour
 		}
 	}
-	o := ProxyOpts{CA: e.ca, RootCAs: e.ca.Pool, MITM: true, MITMConfig: mc, Insecure: cfg.Insecure, DialTimeout: 3 * time.Second}
+	o := ProxyOpts{CA: e.ca, RootCAs: e.ca.Pool, MITM: true, MITMConfig: mc, Insecure: cfg.Insecure, DialTimeout: 3 * time.Second, AutoCA: cfg.AutoCA}
 	if cfg.Domains == "filter" {
 		o.MITMDomains = c07Filter
 	}
@@ -344,7 +350,14 @@ func (e *c07Env) oneConn(px *ProxyInst, cfg C07Cfg, x C07Conn, vid string) (fail
 	if leaf.NotAfter.Before(t1) && !leaf.NotAfter.Before(t0) {
 		at = t0
 	}
-	if _, err := leaf.Verify(x509.VerifyOptions{Roots: e.ca.Pool, Intermediates: inter, DNSName: expectName, CurrentTime: at, KeyUsages: []x509.ExtKeyUsage{x509.ExtKeyUsageServerAuth}}); err != nil {
+	roots := e.ca.Pool
+	if cfg.AutoCA {
+		roots = x509.NewCertPool()
+		if c := px.HP.MITMCACert(); c != nil {
+			roots.AddCert(c)
+		}
+	}
+	if _, err := leaf.Verify(x509.VerifyOptions{Roots: roots, Intermediates: inter, DNSName: expectName, CurrentTime: at, KeyUsages: []x509.ExtKeyUsage{x509.ExtKeyUsageServerAuth}}); err != nil {
 		fails = append(fails, vstat.Failf(key("certificate"), "certificate for %q (SNI %q, CONNECT host %q) does not verify: %v; subject %q, DNS %v, IP %v, valid %s..%s, handshake %s..%s (%s)",
 			expectName, sni, x.Host, err, leaf.Subject, leaf.DNSNames, leaf.IPAddresses, leaf.NotBefore.Format(time.RFC3339Nano), leaf.NotAfter.Format(time.RFC3339Nano), t0.Format(time.RFC3339Nano), t1.Format(time.RFC3339Nano), desc))
 		return fails
@@ -405,6 +418,12 @@ func (b *bufferedConn) Read(p []byte) (int, error) { return b.r.Read(p) }
 
 func classifyC07(c C07Case) (bool, string, []string) {
 	cls := []string{fmt.Sprintf("cache=%d", c.Cfg.CacheSize), "domains-" + c.Cfg.Domains, fmt.Sprintf("conns=%d", len(c.Conns)), "upstream-" + c.Cfg.Upstream}
+	if c.Cfg.AutoCA {
+		cls = append(cls, "generated-ca")
+	}
+	if c.Cfg.Short {
+		cls = append(cls, "validity-1s")
+	}
 	hosts := map[string]bool{}
 	nt := false
 	for _, x := range c.Conns {
